@@ -1,5 +1,6 @@
 SPECIFICATION Spec
 CONSTANTS
+  Wide = FALSE
   Kinds = {"vec", "alvec", "rot2", "rot3", "quat", "about", "scalefac", "tcoords", "inv3"}
 INVARIANT RoundTrip
 INVARIANT VecRoundTrip
